@@ -87,6 +87,7 @@ def gen_case(rng, index, tier):
                                 'rm-other', 'empty-days', 'list', 'put-twin',
                                 'put-twin']))
     c01.add_stale(L, rng, [arg], index, p=0.25)
+    c01.add_partial_trash_dirs(L, rng)
     case = L.desc()
     case['env'] = dict(case['env'], **env_extra)
     case['args'] = [arg]
